@@ -37,6 +37,7 @@ SEEDS = [
     "c = 0\nx = 0\ny = 0\nwhile true:\n    c = DiscreteUniform(0, 2)\n    if c == 0:\n        x = x + 1\n    elif c == 1:\n        y = y + 1/2\n    else:\n        x = 2*x - y\n    end\nend\n",
     "c = 1\nd = 0\nx = 0\nwhile true:\n    c = Bernoulli(1/2)\n    d = Bernoulli(1/4)\n    if c == 1 && d == 0:\n        x = x + 1\n    end\n    if !(c == 1) || d == 1:\n        x = x - 1/2\n    end\nend\n",
     "x = 0\ny = 1\nwhile true:\n    x = x + 2 {1/3} x {1/3} x - y\n    y = 1 - y\nend\n",
+    "c = 0\nx = 1\ny = 0\nwhile true:\n    c = Bernoulli(1/2)\n    if c == 1:\n        x, y = 0, x + y\n    else:\n        x = x + 1\n    end\nend\n",
 ]
 SEEDS_MORE = [
     "g = 0\nx = 0\nwhile true:\n    g = Normal(x, 1)\n    x = x + g/2\nend\n",
